@@ -121,6 +121,11 @@ def gen(ctx, rnd, quick):
         add("p2sh-extra-items", p2sh(red), P.push(b"\x07") + P.push(red))
         add("p2sh-extra-items-noclean", p2sh(red), P.push(b"\x07") + P.push(red), flags=NOCLEAN)
         add("p2sh-wrong-hash", bytes([0xa9, 20]) + rb(rnd, 20) + bytes([0x87]), P.push(red))
+        # a version-1 32-byte program wrapped in P2SH is NOT taproot (BIP341): anyone can spend, unless upgradable programs are discouraged
+        v1 = b"\x51\x20" + P.xonly(7)
+        add("p2sh-wrapped-v1-program", p2sh(v1), P.push(v1), [b"\x01" * 64],
+            flags=R.STD & ~(1 << FB["DISCOURAGE_UPGRADABLE_WITNESS_PROGRAM"]), finding="F-C03-p2sh-wrapped-v1")
+        add("p2sh-wrapped-v1-program-discouraged", p2sh(v1), P.push(v1), [b"\x01" * 64])
         inner = bytes.fromhex("5152935387"); red2 = p2sh(inner)
         add("p2sh-not-recursive", p2sh(red2), P.push(inner) + P.push(red2))
         add("p2sh-not-recursive-false-inner", p2sh(p2sh(b"\x00")), P.push(b"\x00") + P.push(p2sh(b"\x00")))
